@@ -88,6 +88,7 @@ type requester struct {
 
 type park struct {
 	point string
+	step  int // arrival
 	ai    int
 	ch    chan struct{}
 	req   *requester
@@ -118,6 +119,7 @@ type harness struct {
 	parks  []*park // arrival order
 	armed  map[string]bool
 	curReq *requester
+	now    int // step being executed
 	auto   int // outcome given at once to a dial function invoked now (0: park)
 
 	// model; root goroutine only
@@ -214,7 +216,7 @@ func (h *harness) hook(name string, key interface{}) {
 		return
 	}
 	delete(h.armed, k)
-	p := &park{point: name, ai: ai, ch: make(chan struct{})}
+	p := &park{point: name, step: h.now, ai: ai, ch: make(chan struct{})}
 	if name == pointWait && h.curReq != nil {
 		p.req = h.curReq
 		h.curReq.parked = p
@@ -304,28 +306,100 @@ func (h *harness) newAttempt(ai int, inv *invocation) *attempt {
 
 // exec performs one step to quiescence and compares with the model.
 func (h *harness) exec(st Step) *verr {
-	s := h.step
-	h.step++
-	before := h.invCount()
-	var desc string
-	var v *verr
+	var target *requester
+	st = h.effective(st)
 	switch st.K {
 	case "acq":
-		desc, v = h.doAcq(s, st)
+		return h.sub(st, func(s int) (string, *verr) { return h.doAcq(s, st) })
 	case "fin":
-		desc, v = h.doFin(s, st)
+		return h.sub(st, func(s int) (string, *verr) { return h.doFin(s, st) })
 	case "rel", "rel2", "relf":
-		desc, v = h.doRelease(s, st)
+		if v := h.sub(st, func(s int) (d string, v *verr) { target, d, v = h.doRelease(s, st, nil); return }); v != nil {
+			return v
+		}
+		if st.K == "rel" && st.All && target != nil {
+			// the other holders of the same connection follow, one call at a time
+			for _, m := range target.att.members {
+				if m.observed && m.holding {
+					h.label("release-all-holders-in-a-row")
+					if v := h.sub(st, func(s int) (d string, v *verr) { _, d, v = h.doRelease(s, st, m); return }); v != nil {
+						return v
+					}
+				}
+			}
+		}
+		return nil
 	case "cancel":
-		desc, v = h.doCancel(s, st)
+		return h.sub(st, func(s int) (string, *verr) { return h.doCancel(s, st) })
 	case "open":
-		desc, v = h.doOpen(s, st)
-	default:
-		desc, v = st.K, newVerr("harness-error", "unknown step kind %q", st.K)
+		return h.sub(st, func(s int) (string, *verr) { return h.doOpen(s, st) })
 	}
+	return newVerr("harness-error", "unknown step kind %q", st.K)
+}
+
+// effective turns an acq step that finds every thread inside a call and a rel
+// step that finds no unreleased handle into the step that unblocks the system
+// (open a gate / let a parked dial return), so that few generated steps are
+// wasted. A function of the model state only.
+func (h *harness) effective(st Step) Step {
+	if h.epi {
+		return st
+	}
+	idle := make([]bool, h.sc.Threads)
+	for i := range idle {
+		idle[i] = true
+	}
+	anyIdle, anyHeld, anyDial, anyParked := false, false, false, false
+	for _, r := range h.reqs {
+		if !r.observed {
+			idle[r.thread] = false
+		}
+		anyHeld = anyHeld || (r.observed && r.holding)
+	}
+	for _, i := range idle {
+		anyIdle = anyIdle || i
+	}
+	h.mu.Lock()
+	for _, t := range h.cur {
+		anyDial = anyDial || (t != nil && t.state == attInflight && t.inv != nil && !t.inv.returned)
+	}
+	for _, p := range h.parks {
+		anyParked = anyParked || !p.open
+	}
+	h.mu.Unlock()
+	open, fin := Step{K: "open", I: st.I + st.T}, Step{K: "fin", I: st.I + st.A, OK: st.F != 2}
+	switch {
+	case st.K == "acq" && !anyIdle && anyParked:
+		h.label("acq-became-open")
+		return open
+	case st.K == "acq" && !anyIdle && anyDial:
+		h.label("acq-became-fin")
+		return fin
+	case st.K == "rel" && !anyHeld && anyDial:
+		h.label("rel-became-fin")
+		return fin
+	case st.K == "rel" && !anyHeld && anyParked:
+		h.label("rel-became-open")
+		return open
+	}
+	return st
+}
+
+// sub runs one atomic action to quiescence, then the oracle.
+func (h *harness) sub(st Step, f func(s int) (string, *verr)) *verr {
+	s := h.step
+	h.step++
+	h.mu.Lock()
+	h.now = s
+	h.mu.Unlock()
+	before := h.invCount()
+	desc, v := f(s)
 	h.log = append(h.log, fmt.Sprintf("s%d: %s", s, desc))
 	if v != nil {
 		return v
+	}
+	if strings.Contains(desc, "(skipped") {
+		h.label("skipped-" + st.K)
 	}
 	if st.K != "acq" {
 		if n := h.invCount(); n != before {
@@ -472,6 +546,9 @@ func (h *harness) doAcq(s int, st Step) (string, *verr) {
 				h.label("join-during-failing-dial")
 				h.label("join-while-dial-failure-unpublished")
 			}
+			if dialParked && cur.inv != nil && cur.inv.returned && cur.inv.err == nil {
+				h.label("join-while-dial-success-unpublished")
+			}
 			h.mu.Unlock()
 		} else {
 			h.label("join-live-connection")
@@ -550,9 +627,15 @@ func (h *harness) doFin(s int, st Step) (string, *verr) {
 	return desc, nil
 }
 
-func (h *harness) doRelease(s int, st Step) (string, *verr) {
+func (h *harness) doRelease(s int, st Step, pick *requester) (*requester, string, *verr) {
 	var cands []*requester
+	if pick != nil {
+		cands = append(cands, pick)
+	}
 	for _, r := range h.reqs {
+		if pick != nil {
+			break
+		}
 		if !r.observed {
 			continue
 		}
@@ -572,7 +655,7 @@ func (h *harness) doRelease(s int, st Step) (string, *verr) {
 		}
 	}
 	if len(cands) == 0 {
-		return st.String() + " (skipped: no such handle)", nil
+		return nil, st.String() + " (skipped: no such handle)", nil
 	}
 	r := cands[mod(st.I, len(cands))]
 	var desc string
@@ -580,10 +663,19 @@ func (h *harness) doRelease(s int, st Step) (string, *verr) {
 	switch st.K {
 	case "rel":
 		desc = fmt.Sprintf("r%d releases %s", r.id, h.connName(r.conn))
+		others := 0
+		for _, m := range r.att.members {
+			if m != r && m.observed && m.holding {
+				others++
+			}
+		}
 		for _, m := range r.att.members {
 			h.mu.Lock()
 			if m.parked != nil && !m.parked.open {
 				h.label("release-while-joiner-parked-at-conn-wait")
+				if others == 0 {
+					h.label("last-returned-holder-releases-while-joiner-parked-at-conn-wait")
+				}
 			}
 			h.mu.Unlock()
 		}
@@ -595,6 +687,8 @@ func (h *harness) doRelease(s int, st Step) (string, *verr) {
 		}
 		if r.att != nil && !r.att.forgotten {
 			h.label("double-release-while-other-holder-remains")
+		} else if !succ {
+			h.label("double-release-after-close-nothing-registered")
 		}
 	case "relf":
 		desc = fmt.Sprintf("r%d calls the done func returned with its error", r.id)
@@ -607,15 +701,15 @@ func (h *harness) doRelease(s int, st Step) (string, *verr) {
 		}
 	}
 	if r.done == nil {
-		return desc, newVerr("nil-done", "step %d: %s: Connection returned a nil done func to r%d", s, desc, r.id)
+		return r, desc, newVerr("nil-done", "step %d: %s: Connection returned a nil done func to r%d", s, desc, r.id)
 	}
 	if v := h.call(desc, r.done); v != nil {
 		v.msg = fmt.Sprintf("step %d: %s", s, v.msg)
-		return desc, v
+		return r, desc, v
 	}
 	r.released++
 	r.holding = false
-	return desc, nil
+	return r, desc, nil
 }
 
 func (h *harness) doCancel(s int, st Step) (string, *verr) {
@@ -687,6 +781,14 @@ func (h *harness) doOpen(s int, st Step) (string, *verr) {
 		h.mu.Unlock()
 		return st.String() + " (skipped: nothing is parked at a gate)", nil
 	}
+	// two goroutines can reach their gates in one step (a caller at conn.wait and
+	// the dial goroutine it started at conn.dial.result): order by step, then name
+	sort.SliceStable(cands, func(i, j int) bool {
+		if cands[i].step != cands[j].step {
+			return cands[i].step < cands[j].step
+		}
+		return cands[i].point < cands[j].point
+	})
 	p := cands[mod(st.I, len(cands))]
 	p.open = true
 	h.mu.Unlock()
@@ -946,15 +1048,19 @@ func (h *harness) cleanup() {
 			close(p.ch)
 		}
 	}
+	// Parked dials succeed (the connections are closed below): after a violation
+	// the manager's table may be inconsistent and the failure path of the dial
+	// goroutine, which nobody can recover, touches it; the success path does not.
 	for _, inv := range h.invs {
 		if !inv.returned {
 			select {
-			case inv.ch <- false:
+			case inv.ch <- true:
 			default:
 			}
 		}
 	}
 	h.mu.Unlock()
+	synctest.Wait()
 	for _, r := range h.reqs {
 		if r.cancel != nil {
 			r.cancel()
@@ -1021,7 +1127,7 @@ func runBubble(sc *Scenario) (stats, *verr) {
 		h.label("steps-20-plus")
 	}
 	skipped := 0
-	for _, l := range h.log[:len(sc.Steps)] {
+	for _, l := range h.log {
 		if strings.Contains(l, "(skipped") {
 			skipped++
 		}
